@@ -140,6 +140,24 @@ theorem api_wait_bounds (c : Cfg) (n rnd : Int) (hb : c.backOff < 2 ^ 63) (hm : 
 
 example : (Cfg.mk 0 0 0 true).norm.nextWait 70 5 = maxInt64 := by decide
 
+/-- **deadline_respects_max.** A context whose deadline lies `thr` ahead never makes `RetryWithCtx` give up with
+"wait exceeds deadline" as long as the configured maximum is at most `thr`: the pause compared with the deadline is the
+one of the policy *as configured* (normalised only for `≤ 0`), never a larger one — for every policy with a maximum,
+every re-run number and every jitter draw.  (This is the observable the correspondence uses to see the magnitude of
+pauses far longer than a test can sleep.) -/
+theorem deadline_respects_max (c : Cfg) (thr : Int) (rnd : Nat → Int) (n : Nat)
+    (hb : c.backOff < 2 ^ 63) (hm0 : 1 ≤ c.max) (hm : c.max ≤ thr) (hm' : c.max < 2 ^ 63) (hr : ∀ k, 0 ≤ rnd k) :
+    evProbe c thr rnd n = .pass := by
+  have h := api_wait_bounds c n (rnd n) hb hm' (hr n)
+  have hmax : c.norm.max = c.max := by rw [h.2.2]; split <;> omega
+  unfold evProbe
+  split
+  · omega
+  · rfl
+
+example : evProbe ⟨3600000000000, 1, 0, false⟩ 1800000000000 (fun _ => 0) 1 = .pass := by decide
+example : evProbe ⟨3600000000000, 7200000000000, 0, false⟩ 1800000000000 (fun _ => 0) 1 = .exceeds := by decide
+
 /-! ## RetryWithCtx -/
 
 /-- nothing more is run after the k-th call: it did not fail recoverably, or the count is used up, or the context
